@@ -4,11 +4,11 @@
 # scratch copy of /verif (working tree) is pointed at it, the quick checks run there, both are removed.
 # For experiments while a long run is using /repo; results that are kept are re-confirmed with try_patch.sh.
 set -u
-patch=$(realpath "$1"); shift
+if [ "$1" = "-" ]; then patch=""; else patch=$(realpath "$1"); fi; shift   # "-": no patch, the unchanged HEAD
 S=$(mktemp -d /tmp/vscratch.XXXXXX)
 trap 'git -C /repo worktree remove --force "$S/repo" 2>/dev/null; git -C /repo worktree prune; rm -rf "$S"' EXIT
 git -C /repo worktree add -q --detach "$S/repo" HEAD || exit 2
-(cd "$S/repo" && git apply "$patch") || { echo "patch does not apply"; exit 2; }
+[ -z "$patch" ] || (cd "$S/repo" && git apply "$patch") || { echo "patch does not apply"; exit 2; }
 mkdir "$S/verif"
 rsync -a --exclude .git --exclude .build --exclude 'replays/*/found' /verif/ "$S/verif/"
 sed -i "s#=> /repo#=> $S/repo#" "$S/verif/harness/go.mod"
